@@ -164,9 +164,14 @@ def _gen_session(wl, plan, s, plots):
             avail.append({'name': rname_prev(s, ops), 'kind': 'samples', 'sig': sig, 'center': 'peak',
                           'samples': True})
         elif r < 0.46:
-            ops.append({'fn': 'extrema', 'sig': sig, 'boundary': wl.choice((0, 0, 3)),
-                        'fk': wl.choice((None, 'FK0'))})
-            avail.append({'name': rname_prev(s, ops), 'kind': 'extrema', 'sig': sig})
+            op = {'fn': 'extrema', 'sig': sig, 'boundary': wl.choice((0, 0, 3)), 'fk': wl.choice((None, 'FK0'))}
+            if wl.random() < 0.3:
+                op['first'] = wl.choice(('trough', None))
+            if wl.random() < 0.2:
+                op['pad'] = False
+            ops.append(op)
+            if 'first' not in op:
+                avail.append({'name': rname_prev(s, ops), 'kind': 'extrema', 'sig': sig})
         elif r < 0.53:
             # extrema -> zerox -> phase chain on one signal (missing links are inserted)
             e = pick(('extrema',))
@@ -180,7 +185,8 @@ def _gen_session(wl, plan, s, plots):
                 z = {'name': rname_prev(s, ops), 'kind': 'zerox', 'sig': e['sig'], 'ext': e['name']}
                 avail.append(z)
             if r >= 0.49:
-                ops.append({'fn': 'phase', 'sig': z['sig'], 'ext': z['ext'], 'zx': z['name']})
+                ops.append({'fn': 'phase', 'sig': z['sig'], 'ext': z['ext'],
+                            'zx': z['name'] if wl.random() < 0.75 else None})
         elif r < 0.61:
             t = pick(('shape',))
             if t:
@@ -192,7 +198,12 @@ def _gen_session(wl, plan, s, plots):
             if t:
                 fn = wl.choice(('ampfrac', 'ampcons', 'percons', 'mono', 'bfrac')) if t['kind'] != 'samples' \
                     else wl.choice(('mono', 'bfrac'))
-                ops.append({'fn': fn, 'table': t['name'], 'sig': t['sig']})
+                op = {'fn': fn, 'table': t['name'], 'sig': t['sig']}
+                if fn in ('ampcons', 'percons') and wl.random() < 0.5:
+                    op['direction'] = wl.choice(('next', 'last'))
+                if fn == 'bfrac' and wl.random() < 0.5:
+                    op['bk'] = wl.choice(('BK0', 'BK1'))        # **shared burst options
+                ops.append(op)
         elif r < 0.69:
             t = pick(('samples',))
             if t is None:
@@ -279,11 +290,26 @@ def _gen_session(wl, plan, s, plots):
                 t = {'name': rname_prev(s, ops), 'kind': 'features', 'sig': sig, 'center': ops[-1]['center'],
                      'method': 'cycles', 'samples': True}
                 avail.append(t)
-            kind = wl.choice(('summary', 'summary', 'param', 'cpdf', 'hist', 'cat'))
+            kind = wl.choice(('summary', 'summary', 'param', 'cpdf', 'hist', 'cat', 'cparr'))
             op = {'fn': 'plot_' + kind, 'table': t['name'], 'sig': t['sig']}
+            dur = band['T'] / band['fs']
+            if kind in ('summary', 'param', 'cpdf', 'cparr') and wl.random() < 0.5:
+                a = round(wl.uniform(0.05, dur * 0.3), 2)
+                op['xlim'] = [a, round(a + dur * 0.5, 2)]
+            if kind in ('summary', 'param'):
+                op['interp'] = wl.random() < 0.6
             if kind == 'summary':
                 op['th'] = wl.choice(('THC0', 'THC1'))
                 op['only_result'] = wl.random() < 0.5
+            if kind == 'hist':
+                op['only_bursts'] = wl.random() < 0.5
+            if kind == 'cparr':
+                e = pick(('extrema',), sig=t['sig'])
+                if e is None:
+                    ops.append({'fn': 'extrema', 'sig': t['sig'], 'boundary': 0, 'fk': None})
+                    e = {'name': rname_prev(s, ops), 'kind': 'extrema', 'sig': t['sig']}
+                    avail.append(e)
+                op = {'fn': 'plot_cparr', 'sig': t['sig'], 'ext': e['name'], 'xlim': op.get('xlim')}
             ops.append(op)
     return ops
 
@@ -446,27 +472,36 @@ def build_call(op, get, band):
         fe = opt(op['fe'])
         return F.compute_cyclepoints, (get(op['sig']), fs, f_range), ({} if fe is None else fe)
     if fn == 'extrema':
-        return CP.find_extrema, (get(op['sig']), fs, f_range), dict(
-            boundary=op['boundary'], filter_kwargs=opt(op['fk']))
+        kw = dict(boundary=op['boundary'], filter_kwargs=opt(op['fk']))
+        if 'first' in op:
+            kw['first_extrema'] = op['first']
+        if 'pad' in op:
+            kw['pad'] = op['pad']
+        return CP.find_extrema, (get(op['sig']), fs, f_range), kw
     if fn == 'zerox':
         e = get(op['ext'])
         return CP.find_zerox, (get(op['sig']), e[0], e[1]), {}
     if fn == 'phase':
-        e, z = get(op['ext']), get(op['zx'])
+        e = get(op['ext'])
+        if op.get('zx') is None:
+            return CP.extrema_interpolated_phase, (get(op['sig']), e[0], e[1]), {}
+        z = get(op['zx'])
         return CP.extrema_interpolated_phase, (get(op['sig']), e[0], e[1], z[0], z[1]), {}
     if fn == 'burstfeat':
         return F.compute_burst_features, (get(op['table']), get(op['sig'])), dict(
             burst_method=op['method'], burst_kwargs=opt(op['bk']))
     if fn == 'ampfrac':
         return FB.compute_amp_fraction, (get(op['table']),), {}
+    dkw = {'direction': op['direction']} if op.get('direction') else {}
     if fn == 'ampcons':
-        return FB.compute_amp_consistency, (get(op['table']),), {}
+        return FB.compute_amp_consistency, (get(op['table']),), dkw
     if fn == 'percons':
-        return FB.compute_period_consistency, (get(op['table']),), {}
+        return FB.compute_period_consistency, (get(op['table']),), dkw
     if fn == 'mono':
         return FB.compute_monotonicity, (get(op['table']), get(op['sig'])), {}
     if fn == 'bfrac':
-        return FB.compute_burst_fraction, (get(op['table']), get(op['sig']), fs, f_range), {}
+        return FB.compute_burst_fraction, (get(op['table']), get(op['sig']), fs, f_range), \
+            (get(op['bk']) if op.get('bk') else {})
     if fn == 'durations':
         import bycycle.features.shape as SHP
         return SHP.compute_durations, (get(op['table']),), {}
@@ -498,16 +533,21 @@ def build_call(op, get, band):
         return DFU.epoch_df, (get(op['table']), band['T'], band['T'] // op['k']), {}
     if fn == 'drop':
         return DFU.drop_samples_df, (get(op['table']),), {}
+    xl = {'xlim': tuple(op['xlim'])} if op.get('xlim') else {}
     if fn == 'plot_summary':
         return _closing(P.plot_burst_detect_summary), (get(op['table']), get(op['sig']), fs, get(op['th'])), dict(
-            plot_only_result=op['only_result'])
+            plot_only_result=op['only_result'], interp=op.get('interp', True), **xl)
     if fn == 'plot_param':
         return _closing(P.plot_burst_detect_param), (get(op['table']), get(op['sig']), fs,
-                                                     'amp_consistency', 0.5), {}
+                                                     'amp_consistency', 0.5), dict(interp=op.get('interp', True), **xl)
     if fn == 'plot_cpdf':
-        return _closing(P.plot_cyclepoints_df), (get(op['table']), get(op['sig']), fs), {}
+        return _closing(P.plot_cyclepoints_df), (get(op['table']), get(op['sig']), fs), xl
+    if fn == 'plot_cparr':
+        e = get(op['ext'])
+        return _closing(P.plot_cyclepoints_array), (get(op['sig']), fs), dict(peaks=e[0], troughs=e[1], **xl)
     if fn == 'plot_hist':
-        return _closing(P.plot_feature_hist), (get(op['table']), 'volt_amp'), {}
+        return _closing(P.plot_feature_hist), (get(op['table']), 'volt_amp'), dict(
+            only_bursts=op.get('only_bursts', True))
     if fn == 'plot_cat':
         return _closing(P.plot_feature_categorical), (get(op['table']), 'volt_amp'), {}
     raise ValueError(fn)
